@@ -279,7 +279,7 @@ func (r *Report) Fail(key, kind string, detail map[string]any, rerun func() bool
 			// functions of their descriptor, so either the harness is nondeterministic or the library's answer depends
 			// on what other goroutines are doing. Decide by running the same descriptor on several goroutines at once:
 			// a failure there, with every solo run passing, is a verdict ("not a function of its inputs").
-			if n == 1 {
+			if n == 1 && parActive.Load() > 0 {
 				if f, total := ConcurrentReruns(rerun); f > 0 {
 					detail["needs_concurrency"] = true
 					detail["concurrency"] = fmt.Sprintf("the case passes when it runs alone (4 of 4 re-runs) and fails in %d of %d re-runs when the same call is in progress on other goroutines: the result is not a function of the inputs", f, total)
@@ -590,6 +590,12 @@ func safeCall(fn func(int), i int) {
 var StopAll atomic.Bool
 
 // Par runs fn(i) for i in [0,n) on all CPUs (deterministic partition by index).
+// parActive counts the parallel sections in progress. The concurrent re-run verdict (Fail) applies only to cases that
+// failed INSIDE one: there the check itself runs its single-case code on many goroutines, so that code is known to be
+// safe to run concurrently and a parallel-only failure is the library's. Sequential sections (process-global readers,
+// the trace monitor, child processes) never get it.
+var parActive atomic.Int64
+
 func Par(n int, fn func(i int)) {
 	w := runtime.GOMAXPROCS(0)
 	if w > n {
@@ -601,6 +607,8 @@ func Par(n int, fn func(i int)) {
 		}
 		return
 	}
+	parActive.Add(1)
+	defer parActive.Add(-1)
 	var wg sync.WaitGroup
 	var next atomic.Int64
 	for k := 0; k < w; k++ {
